@@ -144,7 +144,9 @@ def review(ob, prog, roots, table, fshort, stop=(), include_overflow=False, scop
 
     def nk(d):
         # closure numbering changes whenever a closure is added or removed earlier in the function: key by `{closure}`
-        return _re.sub(r"\{closure#\d+\}", "{closure}", d.replace("alpenglow::", ""))
+        # ... and a loop body turned into a closure (for -> for_each / any) moves a site from the function into one of its
+        # closures: the review is per function, closures included
+        return d.replace("alpenglow::", "").split("::{closure")[0]
     ntable = {}
     for k, v in table.items():
         kk = (nk(k[0]), k[1], k[2])
@@ -166,11 +168,11 @@ def review(ob, prog, roots, table, fshort, stop=(), include_overflow=False, scop
         _rc = {}
     present = set(nk(d) for d in prog.bodies)
     for kk, v in list(ntable.items()):
-        root = kk[0].split("::{closure")[0]
-        if any(x == root or x.startswith(root + "::{closure") for x in present):
+        root = kk[0]
+        if root in present:
             continue
         for c in _rc.get("alpenglow::" + root, []):
-            ck = (nk(c) + kk[0][len(root):], kk[1], kk[2])
+            ck = (nk(c), kk[1], kk[2])
             if ck in ntable:
                 o_ = ntable[ck]
                 ntable[ck] = (o_[0] + v[0], o_[1] + " / " + v[1]) + tuple(o_[2:3] or v[2:3])
